@@ -1,14 +1,107 @@
 """Replay signatures: how to snapshot a function's inputs inside the verifier run and how to call it natively.
 
-A signature is a list of argument descriptors.  From it are generated
-  * the VC_ENTRY_<f> ghost snapshot (woven at the function's entry): copies the inputs into named ghost globals, so the
-    counterexample trace of a failing obligation carries the complete input of the call;
-  * the native replay driver (replay.py).
+sig(fn) = dict(ret=<ctype or None>, args=[(kind, name, ...)], oracle=<name in oracles.py>)
+kinds:  ('bn', name)                 bn_t argument (pointer to bn_st)
+        ('dv', name, lenexpr, cty)   digit vector of lenexpr digits (cty 'dig_t *' or 'const dig_t *')
+        ('sc', name, ctype)          scalar passed by value
+        ('po', name, ctype)          pointer to a scalar output
+        ('by', name, lenexpr, cty)   byte buffer
+From it are generated the VC_ENTRY_<f> ghost snapshot (woven at the function's entry in snapshot re-runs) and the native
+replay driver (replay.py).
 """
 
 SIGS = {}
 
 
-def entry_macros_header(u):
-    import replay
-    return replay.entry_header(u)
+def sig(fn, args, ret=None, oracle=None, headers=('relic.h', 'relic_bn_low.h')):
+    SIGS[fn] = dict(fn=fn, args=args, ret=ret, oracle=oracle or fn, headers=list(headers))
+
+
+def bn(n):
+    return ('bn', n)
+
+
+def dv(n, ln, const=True):
+    return ('dv', n, ln, 'const dig_t *' if const else 'dig_t *')
+
+
+def sc(n, t):
+    return ('sc', n, t)
+
+
+# ---- bignum API
+for f in ('bn_add', 'bn_sub', 'bn_add_imp', 'bn_sub_imp'):
+    sig(f, [bn('c'), bn('a'), bn('b')])
+for f in ('bn_copy', 'bn_abs', 'bn_neg', 'bn_dbl', 'bn_hlv'):
+    sig(f, [bn('c'), bn('a')])
+for f in ('bn_add_dig', 'bn_sub_dig'):
+    sig(f, [bn('c'), bn('a'), sc('b', 'dig_t')])
+for f in ('bn_lsh', 'bn_rsh'):
+    sig(f, [bn('c'), bn('a'), sc('bits', 'uint_t')])
+for f in ('bn_trim', 'bn_zero'):
+    sig(f, [bn('a')])
+sig('bn_grow', [bn('a'), sc('digits', 'size_t')])
+sig('bn_set_dig', [bn('a'), sc('digit', 'dig_t')])
+sig('bn_set_2b', [bn('a'), sc('b', 'size_t')])
+for f in ('bn_sign', 'bn_is_zero', 'bn_is_even'):
+    sig(f, [bn('a')], ret='int')
+sig('bn_bits', [bn('a')], ret='size_t')
+sig('bn_get_bit', [bn('a'), sc('bit', 'uint_t')], ret='int')
+sig('bn_cmp_dig', [bn('a'), sc('b', 'dig_t')], ret='int')
+for f in ('bn_cmp', 'bn_cmp_abs'):
+    sig(f, [bn('a'), bn('b')], ret='int')
+sig('util_bits_dig', [sc('a', 'dig_t')], ret='size_t', headers=('relic.h',))
+
+# ---- digit vectors
+for f in ('bn_addn_low', 'bn_subn_low'):
+    sig(f, [dv('c', 'size', False), dv('a', 'size'), dv('b', 'size'), sc('size', 'size_t')], ret='dig_t')
+for f in ('bn_add1_low', 'bn_sub1_low'):
+    sig(f, [dv('c', 'size', False), dv('a', 'size'), sc('digit', 'dig_t'), sc('size', 'size_t')], ret='dig_t')
+for f in ('bn_lsh1_low', 'bn_rsh1_low'):
+    sig(f, [dv('c', 'size', False), dv('a', 'size'), sc('size', 'size_t')], ret='dig_t')
+for f in ('bn_lshb_low', 'bn_rshb_low'):
+    sig(f, [dv('c', 'size', False), dv('a', 'size'), sc('size', 'size_t'), sc('bits', 'uint_t')], ret='dig_t')
+sig('dv_lshd', [dv('c', 'size', False), dv('a', 'size - digits'), sc('size', 'size_t'), sc('digits', 'uint_t')])
+sig('dv_rshd', [dv('c', 'size', False), dv('a', 'size'), sc('size', 'size_t'), sc('digits', 'uint_t')])
+sig('dv_copy', [dv('c', 'digits', False), dv('a', 'digits'), sc('digits', 'size_t')])
+sig('dv_zero', [dv('a', 'digits', False), sc('digits', 'size_t')])
+sig('dv_cmp', [dv('a', 'size'), dv('b', 'size'), sc('size', 'size_t')], ret='int')
+
+
+def entry_macro(fn):
+    s = SIGS.get(fn)
+    if not s:
+        return None
+    parts = []
+    nb = nd = ns = ny = 0
+    for a in s['args']:
+        k = a[0]
+        if k == 'bn':
+            parts.append('VC_SNAP_BNARG(%d, %s)' % (nb, a[1]))
+            nb += 1
+        elif k == 'dv':
+            parts.append('VC_SNAP_DVARG(%d, %s, %s)' % (nd, a[1], a[2]))
+            nd += 1
+        elif k == 'sc':
+            parts.append('VC_SNAP_SCARG(%d, %s)' % (ns, a[1]))
+            ns += 1
+        elif k == 'by':
+            parts.append('VC_SNAP_BYARG(%d, %s, %s)' % (ny, a[1], a[2]))
+            ny += 1
+        elif k == 'po':
+            pass
+    ptrs = [a[1] for a in s['args'] if a[0] in ('bn', 'dv')]
+    k = 0
+    for i in range(len(ptrs)):
+        for j in range(i + 1, len(ptrs)):
+            parts.append('VC_SNAP_ALIAS(%d, %s, %s)' % (k, ptrs[i], ptrs[j]))
+            k += 1
+    parts.append('VC_SNAP_DONE')
+    return '#define VC_ENTRY_%s %s\n' % (fn, ' '.join(parts))
+
+
+def entry_macros_header(u, snapshot=False):
+    if not snapshot or not u.replay_func:
+        return '/* no entry snapshot in this run */\n'
+    m = entry_macro(u.replay_func)
+    return m or '/* no replay signature for %s */\n' % u.replay_func
